@@ -133,8 +133,10 @@ def _limit_endpoint(
     s_l: torch.Tensor,
     s_r: torch.Tensor,
 ) -> torch.Tensor:
-    # If derivative points opposite to the first secant, zero it
-    mask_sign_change = d_end * s_l < 0
+    # If derivative does not point in the direction of the first secant, zero it
+    # (`<=` covers a flat first secant, s_l == 0, where the standard limiter
+    # sign(d) != sign(s_l) also zeroes the slope; `<` let the interpolant overshoot there)
+    mask_sign_change = d_end * s_l <= 0
     d_end = torch.where(mask_sign_change, torch.zeros_like(d_end), d_end)
 
     # If secants switch sign, cap magnitude to 3*|s_l|
